@@ -85,11 +85,12 @@ func (r *renderer) nl() {
 	}
 }
 
-var wsOpts = []string{"", " ", "\t", "  ", " \t "}
+// (the last three: spaces beyond ASCII, which the lexer — unicode.IsSpace — is observed to accept as spacing)
+var wsOpts = []string{"", " ", "\t", "  ", " \t ", " ", "", "\u3000", "\u2003 ", "\u00a0"}
 var wsOptsSmall = []string{"", " "}
 var ws1Opts = []string{" ", "\t", "  ", "\t "}
 var ws1OptsSmall = []string{" ", "\t"}
-var indentOpts = []string{"", "    ", "\t", " ", "  \t"}
+var indentOpts = []string{"", "    ", "\t", " ", "  \t", "    ", "\t", "\u3000\u3000", "\u2002"}
 var indentOptsSmall = []string{"", "\t"}
 
 func (r *renderer) pick(label string, full, small []string) string {
